@@ -402,6 +402,8 @@ def permute_dims(x, /, axes):
     else:
         axes = tuple(range(x.ndim))[::-1]
     axes = tuple(d + x.ndim if d < 0 else d for d in axes)
+    if sorted(axes) != list(range(x.ndim)):
+        raise ValueError(f"axes {axes} is not a permutation of the array's dimensions")
 
     # extra memory copy due to Zarr enforcing C order on transposed array
     extra_projected_mem = x.chunkmem
